@@ -62,3 +62,18 @@ impl TxInputsBuilder {
     #[verifier::external_body] pub fn add_regular_input(&mut self, address: &Address, input: &TransactionInput, amount: &Value) -> (r: Result<(), JsError>)
         ensures r is Ok ==> *final(self) == old(self).with_regular(*address, *input, *amount), r is Err ==> *final(self) == *old(self) { unimplemented!() }
 }
+
+// ===== the deprecated one-line input wrappers: exactly the input builder's own operation, nothing else of the transaction builder touched ======================
+opaque_types!(ByronAddressO, PlutusWitnessO);
+impl TxInputsBuilder {
+    // the input builder's registration functions (each PROVED in unit tx_inputs); here: uninterpreted "the input builder after the call"
+    pub uninterp spec fn with_key(&self, hash: Ed25519KeyHashO, input: TransactionInput, amount: Value) -> TxInputsBuilder;
+    pub uninterp spec fn with_bootstrap(&self, addr: ByronAddressO, input: TransactionInput, amount: Value) -> TxInputsBuilder;
+    pub uninterp spec fn with_plutus(&self, w: PlutusWitnessO, input: TransactionInput, amount: Value) -> TxInputsBuilder;
+    pub uninterp spec fn with_native(&self, s: NativeScriptSourceO, input: TransactionInput, amount: Value) -> TxInputsBuilder;
+    #[verifier::external_body] pub fn add_key_input(&mut self, hash: &Ed25519KeyHashO, input: &TransactionInput, amount: &Value) ensures *final(self) == old(self).with_key(*hash, *input, *amount) { unimplemented!() }
+    #[verifier::external_body] pub fn add_bootstrap_input(&mut self, hash: &ByronAddressO, input: &TransactionInput, amount: &Value) ensures *final(self) == old(self).with_bootstrap(*hash, *input, *amount) { unimplemented!() }
+    #[verifier::external_body] pub fn add_plutus_script_input(&mut self, witness: &PlutusWitnessO, input: &TransactionInput, amount: &Value) ensures *final(self) == old(self).with_plutus(*witness, *input, *amount) { unimplemented!() }
+    #[verifier::external_body] pub fn add_native_script_input(&mut self, script: &NativeScriptSourceO, input: &TransactionInput, amount: &Value) ensures *final(self) == old(self).with_native(*script, *input, *amount) { unimplemented!() }
+}
+impl NativeScriptSourceO { pub uninterp spec fn of(s: NativeScriptO) -> NativeScriptSourceO; }
